@@ -26,10 +26,10 @@ def used(ip, what):
 # ------------------------------------------------------------------------------------------ builtins
 
 def builtin(name):
-    if name in _BUILTINS:
-        return _BUILTINS[name]
     if name in EXC_NAMES or name in TYPE_NAMES:
         return BuiltinType.get(name)
+    if name in _BUILTINS:
+        return _BUILTINS[name]
     return None
 
 
@@ -77,6 +77,10 @@ def type_name_of(ip, v):
 
 
 def isinstance_(ip, v, t):
+    if hasattr(v, 'pv_isinstance'):
+        r = v.pv_isinstance(ip, t)
+        if r is not NotImplemented:
+            return r
     if isinstance(t, tuple):
         r = False
         for x in t:
@@ -340,6 +344,8 @@ def b_dict(ip, it=None, **kw):
 
 
 def b_type(ip, v):
+    if hasattr(v, 'pv_type'):
+        return v.pv_type(ip)
     tn = type_name_of(ip, v)
     from .loader import ClassInfo
     if isinstance(tn, ClassInfo):
@@ -363,6 +369,8 @@ def b_hasattr(ip, v, name):
 
 def b_getattr(ip, v, name, *default):
     if not isinstance(name, str):
+        if hasattr(v, 'pv_getattr_sym'):
+            return v.pv_getattr_sym(ip, name, default)
         raise Unsupported('getattr with a symbolic name')
     try:
         return ip.getattr(v, name)
@@ -446,6 +454,8 @@ def b_hash(ip, v):
 
 
 def b_dir(ip, v):
+    if hasattr(v, 'pv_dir'):
+        return v.pv_dir(ip)
     hk = ip.hooks.get('dir')
     if hk is not None:
         return hk(ip, v)
@@ -540,6 +550,12 @@ def contains(ip, container, item):
         return contains(ip, container.d, item)
     if isinstance(container, SymMap):
         kk = container.kkind
+        if hasattr(item, 'pv_key'):
+            g = item.pv_key(kk)
+            if g is None:
+                return False
+            guard, kt = g
+            return ops.and_(ops.sbool(guard) if not isinstance(guard, bool) else guard, ops.sbool(z3.Select(container.dom, kt)))
         if not key_compatible(item, kk):
             return False
         return ops.sbool(z3.Select(container.dom, ip.unwrap(item, kk)))
@@ -568,6 +584,8 @@ def contains(ip, container, item):
 
 
 def key_compatible(item, kind):
+    if hasattr(item, 'pv_key'):
+        return item.pv_key(kind) is not None
     t = ops.pytype(item)
     if kind.ty == 'int':
         return t in ('int', 'bool')
@@ -1470,6 +1488,17 @@ def module_attr(mv, name):
     if sub in _Registry.modules:
         return ModuleVal(sub)
     return Opaque(sub)
+
+
+def call_symfn(ip, fn, args, kwargs):
+    """call of a callable known only by reference: TypeError when it is None; recorded as an event;
+    effects (frame, exceptions) come from the hook 'symfn' of the contract under verification"""
+    ip.ctx.raise_if(ops.sbool(fn.ref == 0), 'TypeError', "'NoneType' object is not callable")
+    ip.state.events.append(('symfn', fn.ref, tuple(args), dict(kwargs)))
+    hk = ip.hooks.get('symfn')
+    if hk is not None:
+        return hk(ip, fn, args, kwargs)
+    return None
 
 
 def call_opaque(ip, fn, args, kwargs):
